@@ -23,6 +23,7 @@ EXPLANATION = (
     "re-raise, scheduled jobs are dispatched before events with the same bound, ScheduledJob orders by 'when' "
     "only. Decides these structural necessary conditions on every path; does not execute the dispatcher."
     " C13.3 also: the scheduler pass returns only across the 'next job is not due' edge."
+    " C13.4 also: schedule() and SchedulerQueue.push queue a job under exactly the time given."
 )
 TRUSTED = ["CPython ast parser", "sa.cfg statement CFG (feasibility-insensitive)", "heapq semantics: h[0] is the minimum"]
 
